@@ -5,6 +5,8 @@ import (
 	"go/ast"
 	"go/token"
 	"go/types"
+	"os"
+	"sort"
 	"strings"
 
 	"golang.org/x/tools/go/ssa"
@@ -17,7 +19,7 @@ func (e *Engine) newFnCtx(fn *ssa.Function) *FnCtx {
 		vals: map[ssa.Value]Val{}, endState: map[*ssa.BasicBlock]*State{},
 		ordinals: map[string]int{}, trustedUsed: map[string]bool{},
 		debugNames: map[string][]debugBinding{}, strConsts: map[string]string{},
-		ghostDecl: map[string]types.Type{}, anchorOrd: map[string]int{},
+		ghostDecl: map[string]types.Type{}, anchorOrd: map[string]int{}, anchorsHit: map[*AnchorClause]bool{}, anchorsSeen: map[string]bool{},
 	}
 }
 
@@ -25,7 +27,7 @@ func (e *Engine) newFnCtx(fn *ssa.Function) *FnCtx {
 func (fc *FnCtx) Translate() (err error) {
 	defer func() {
 		if r := recover(); r != nil {
-			if ue, ok := r.(userError); ok {
+			if ue, ok := r.(userError); ok && os.Getenv("GOVC_PANIC") == "" {
 				err = fmt.Errorf("%s: %s", fc.name, string(ue))
 				return
 			}
@@ -53,6 +55,10 @@ func (fc *FnCtx) Translate() (err error) {
 		fc.vals[fv] = v
 		fc.entry.assume(fc.wfFacts(v))
 		fc.entry.assume(fc.paramFacts(v))
+		// a captured variable is the address of a live cell of the enclosing function
+		if _, ok := fv.Type().Underlying().(*types.Pointer); ok {
+			fc.entry.assume(ptrNonNil(v))
+		}
 	}
 	// implicit precondition: a pointer receiver is non-nil (checked at every call site)
 	if fn.Signature.Recv() != nil && len(fn.Params) > 0 {
@@ -77,6 +83,7 @@ func (fc *FnCtx) Translate() (err error) {
 		}
 	} else {
 		pw := fc.eng.probeWrites(fc.fn)
+		fc.anchorOrd = map[string]int{}
 		for _, li := range fc.loops {
 			li.writes = newNameSet()
 			if pw == nil {
@@ -95,6 +102,32 @@ func (fc *FnCtx) Translate() (err error) {
 				}
 			}
 		}
+	}
+	// frame: the declared modifies clause must cover what the body (and its callees, by their summaries) may write
+	if !fc.probe && fc.c != nil && fc.c.HasModifies && !fc.c.Trusted {
+		declared := fc.eng.summary(fc.fn)
+		pw := fc.eng.probeWrites(fc.fn)
+		var extra []string
+		if pw == nil {
+			extra = append(extra, "probe failed")
+		}
+		for _, w := range pw {
+			if w.All && !declared.All {
+				extra = append(extra, "ALL: "+w.Why)
+			}
+			for n := range w.Names {
+				if !declared.Has(n) && !strings.HasPrefix(n, "defer|") && !strings.HasPrefix(n, "lock|") {
+					extra = append(extra, n)
+				}
+			}
+		}
+		goal := "true"
+		descr := "frame: body writes only what the modifies clause allows"
+		if len(extra) > 0 {
+			goal = "false"
+			descr = "frame: body may write outside the modifies clause: " + strings.Join(dedup(extra), ", ")
+		}
+		fc.obligeAt(fc.entry, "frame", "modifies", goal, fn.Pos(), descr)
 	}
 	// defer flags start false
 	nd := 0
@@ -174,7 +207,7 @@ func (fc *FnCtx) Translate() (err error) {
 				// loop header: check invariant on entry, then havoc
 				fc.cur = st
 				fc.checkInvariant(li, st, phiVals, "inv-init", "entry")
-				hs := st.havocked(li.writes)
+				hs := st.havockedSilently(li.writes)
 				li.hstate = hs
 				li.phiFresh = map[*ssa.Phi]Val{}
 				fc.cur = hs
@@ -228,6 +261,19 @@ func (fc *FnCtx) Translate() (err error) {
 		}
 		fc.cur = st
 		fc.checkInvariant(pi.li, st, phiVals, "inv-preserve", fmt.Sprintf("from%d", 0))
+	}
+	// every anchored clause must have matched a program point
+	if fc.c != nil && !fc.probe {
+		for _, a := range append(append([]*AnchorClause{}, fc.c.Asserts...), fc.c.GhostUpd...) {
+			if !fc.anchorsHit[a] {
+				var seen []string
+				for s := range fc.anchorsSeen {
+					seen = append(seen, s)
+				}
+				sort.Strings(seen)
+				userErr("anchor %q matches no program point (available: %s)", a.Anchor, strings.Join(seen, "; "))
+			}
+		}
 	}
 	return nil
 }
@@ -457,12 +503,19 @@ func (fc *FnCtx) coerceBinY(x *ssa.BinOp) Val {
 }
 
 func (fc *FnCtx) havocAll() {
-	fc.cur = fc.cur.havocked(&NameSet{All: true})
+	why := fc.name
+	if fc.curInstr != nil {
+		why += " @" + fc.posOf(fc.curInstr.Pos()) + " " + fmt.Sprintf("%T", fc.curInstr)
+	}
+	fc.cur = fc.cur.havocked(&NameSet{All: true, Why: why})
 }
 
 func (fc *FnCtx) doAlloc(x *ssa.Alloc) {
 	elem := x.Type().Underlying().(*types.Pointer).Elem()
 	ref := fc.allocRef()
+	savedNR := fc.noRecord
+	fc.noRecord = true
+	defer func() { fc.noRecord = savedNR }()
 	if ptrIsThin(elem) {
 		if isStruct(elem) {
 			fc.storeAt(fc.cur, elem, ref, zeroVal(elem))
@@ -782,6 +835,9 @@ func (fc *FnCtx) doMakeSlice(x *ssa.MakeSlice) {
 	fc.oblige("bounds", "makeslice", and(app("bvule", ln, cp), app("bvule", cp, lim)), x.Pos(), "makeslice: len/cap out of range")
 	fc.allocObligation(x.Pos(), app("bvmul", cp, bvLit(esz, 64)), "make")
 	ref := fc.allocRef()
+	savedNR := fc.noRecord
+	fc.noRecord = true
+	defer func() { fc.noRecord = savedNR }()
 	// zeroed contents
 	if !ptrIsThin(et) {
 		for k, lf := range layout(et) {
@@ -901,7 +957,7 @@ func (e *Engine) newLemmaCtx(c *Contract) *FnCtx {
 		vals: map[ssa.Value]Val{}, endState: map[*ssa.BasicBlock]*State{},
 		ordinals: map[string]int{}, trustedUsed: map[string]bool{},
 		debugNames: map[string][]debugBinding{}, strConsts: map[string]string{},
-		ghostDecl: map[string]types.Type{}, anchorOrd: map[string]int{},
+		ghostDecl: map[string]types.Type{}, anchorOrd: map[string]int{}, anchorsHit: map[*AnchorClause]bool{}, anchorsSeen: map[string]bool{},
 	}
 	return fc
 }
